@@ -15,7 +15,10 @@
 (*   d  "over"   an identical later occurrence overrides an earlier one     *)
 (*      "unique" once-only: a repeat is dropped                            *)
 (*      "none"   position and multiplicity matter, never touched           *)
-(*   g  1 = a library for the purposes of --start-group/--end-group        *)
+(*   g  1 = a library for the purposes of --start-group/--end-group;       *)
+(*      2 = the documentation leaves open whether it counts as one (an     *)
+(*      option whose value merely ends like a library file name, see       *)
+(*      ArgListClassify!GroupOf): both readings are accepted (NativeSet)   *)
 (*   s  1 = -isystem<default dir> / -isystem=<default dir>,                *)
 (*      2 = a bare "-isystem", 3 = a bare default include directory        *)
 (*   ab 1 = the text is an absolute path (append_direct may de-dup it)     *)
@@ -89,8 +92,9 @@ RemoveOne(L, a) ==
          IN SubSeq(L, 1, j - 1) \o SubSeq(L, j + 1, Len(L))
 
 \* ---- to_native (GNU-like linker: group the libraries; drop -isystem of default directories) -----
-Groups(L) ==
-    LET libs == { i \in 1..Len(L) : L[i].g = 1 } IN
+\* S = the arguments of unspecified status (g = 2) that are read as libraries
+GroupsWith(L, S) ==
+    LET libs == { i \in 1..Len(L) : L[i].g = 1 \/ L[i] \in S } IN
     IF Cardinality(libs) < 2 THEN L
     ELSE LET lo == CHOOSE i \in libs : \A j \in libs : i <= j
              hi == CHOOSE i \in libs : \A j \in libs : i >= j
@@ -103,7 +107,14 @@ StripDefaultSystemDirs(L) ==
         keep(i) == ~ removed(i)
     IN Pick(L, keep)
 
+Groups(L) == GroupsWith(L, {})
+
 NativeOf(L, gnu) == StripDefaultSystemDirs(IF gnu THEN Groups(L) ELSE L)
+\* every acceptable result of to_native: one reading per argument TEXT of unspecified status
+MaybeLibs(L) == { L[i] : i \in { j \in 1..Len(L) : L[j].g = 2 } }
+NativeSet(L, gnu) ==
+    IF gnu THEN { StripDefaultSystemDirs(GroupsWith(L, S)) : S \in SUBSET MaybeLibs(L) }
+    ELSE { StripDefaultSystemDirs(L) }
 
 \* ---- the object store: a sequence of lists; operations name an object by index ------------------
 \* op = [k, o, b, i]: kind, object, batch (sequence of arguments), integer operand
